@@ -6,6 +6,7 @@ pub mod c05;
 pub mod c06;
 pub mod c07;
 pub mod c11;
+pub mod c12;
 
 use symcore::Config;
 
@@ -19,6 +20,7 @@ pub fn instances(prop: &str, tier: &str, seed: u64) -> Vec<String> {
         "C06" => c06::instances(tier, seed),
         "C07" => c07::instances(tier, seed),
         "C11" => c11::instances(tier),
+        "C12" => c12::instances(tier),
         _ => vec![],
     }
 }
@@ -35,6 +37,7 @@ pub fn body(prop: &str, inst: &str) {
         "C06" => c06::body(inst),
         "C07" => c07::body(inst),
         "C11" => c11::body(inst),
+        "C12" => c12::body(inst),
         _ => panic!("unknown property {}", prop),
     }
 }
